@@ -357,6 +357,13 @@ def over_acceptance_signature(text, failure, info):
                 and part[i + 1].text not in ('this', 'null', 'true', 'false') \
                 and part[i + 2].text.startswith('/'):
             return 'c05.slash_after_reserved_prop'
+    # restricted keyword + comment that contains / is followed by a line terminator: the comment hides
+    # the line break from the restricted-production check, the operand is not split off
+    for i in range(len(part) - 1):
+        a, b = part[i], part[i + 1]
+        if a.type == 'keyword' and a.text in RESTRICTED_KW and b.nl_before and has_comment(text[a.end:b.start]) \
+                and not (i and part[i - 1].type == 'punct' and part[i - 1].text == '.'):
+            return 'c04.asi_comment_newline'
     # `throw` + comment + line terminator: the comment hides the restricted keyword
     if msg == 'line terminator after throw' and part:
         last = part[-1]
